@@ -45,7 +45,7 @@ var c02Factors = []struct {
 	name string
 	n    int64
 }{{"base", 3}, {"bits", 256}, {"anchor", 3}, {"identity", 3}, {"expiry", 3}, {"certTime", 2}, {"revocation", 4}, {"plugin", 10},
-	{"vIdentity", 3}, {"vRevocation", 3}, {"callErr", 2}, {"crit", 3}, {"scheme", 2}, {"format", 2}, {"legacy", 2}, {"pver", 6}}
+	{"vIdentity", 3}, {"vRevocation", 3}, {"callErr", 2}, {"crit", 3}, {"scheme", 2}, {"format", 2}, {"legacy", 2}, {"pver", 6}, {"prelude", 6}}
 
 func (c02) Gen(r *rand.Rand, tier string, idx int) *core.Plan {
 	w := map[string]int64{}
@@ -87,6 +87,7 @@ func (c02) Gen(r *rand.Rand, tier string, idx int) *core.Plan {
 	w["format"] = r.Int64N(2)
 	w["legacy"] = r.Int64N(2)
 	w["pver"] = healthy(6, 60)
+	w["prelude"] = healthy(6, 60)
 	return p
 }
 
@@ -266,16 +267,48 @@ func (l c02) Exec(env *core.Env) *core.Result {
 		if plug >= 5 && plug <= 7 && (w["pver"] == 2 || w["pver"] == 5) {
 			pluginProblem = true // installed version precedes the signed minimum
 		}
-		situation := fmt.Sprintf("anchor=%d identity=%d expiry=%d certTime=%d revocation=%d plugin=%d verdicts=%d/%d callErr=%d crit=%d scheme=%d fmt=%d legacy=%d bits=%d pver=%d",
-			w["anchor"], w["identity"], w["expiry"], w["certTime"], w["revocation"], plug, w["vIdentity"], w["vRevocation"], w["callErr"], w["crit"], w["scheme"], w["format"], w["legacy"], w["bits"], w["pver"])
+		situation := fmt.Sprintf("anchor=%d identity=%d expiry=%d certTime=%d revocation=%d plugin=%d verdicts=%d/%d callErr=%d crit=%d scheme=%d fmt=%d legacy=%d bits=%d pver=%d prelude=%d",
+			w["anchor"], w["identity"], w["expiry"], w["certTime"], w["revocation"], plug, w["vIdentity"], w["vRevocation"], w["callErr"], w["crit"], w["scheme"], w["format"], w["legacy"], w["bits"], w["pver"], w["prelude"])
 		accepted := map[string]bool{}
 		for base := int64(0); base < 3; base++ {
 			levelName, override, enf := levelFromKnobs(base, w["bits"])
-			store, val, mgr, sp, _ := makeWorld()
+			store, val, mgr, sp, sm := makeWorld()
 			v, err := buildVerifier(vcfg{level: levelName, override: override, stores: []string{storeType + ":s"}, identities: identities, store: store, validator: val, legacy: w["legacy"] == 1, mgr: mgr})
 			if err != nil {
 				res.Violate("HARNESS/verifier", "", "%v", err)
 				return
+			}
+			if sm != nil && w["prelude"] != 0 {
+				// the verifier is long-lived: before the verification that is judged it has already verified this
+				// signature once while ANOTHER build of the plugin was installed (then the plugin was upgraded /
+				// downgraded / reinstalled). What is judged afterwards is the same as without that history.
+				pre := &world.ScriptedPlugin{Meta: pf.GetMetadataResponse{Name: c02Plugin, Description: "d", Version: "3.1.4", URL: "u", SupportedContractVersions: []string{"1.0"}}}
+				pre.Verdicts = map[pf.Capability]*pf.VerificationResult{pf.CapabilityTrustedIdentityVerifier: {Success: true}, pf.CapabilityRevocationCheckVerifier: {Success: true}}
+				switch w["prelude"] {
+				case 1: // every verifier capability, new enough
+					pre.Meta.Capabilities = []pf.Capability{pf.CapabilityTrustedIdentityVerifier, pf.CapabilityRevocationCheckVerifier}
+				case 2: // too old
+					pre.Meta.Version = "0.9.0"
+					pre.Meta.Capabilities = []pf.Capability{pf.CapabilityTrustedIdentityVerifier, pf.CapabilityRevocationCheckVerifier}
+				case 3: // no verifier capability at all
+					pre.Meta.Capabilities = []pf.Capability{pf.CapabilitySignatureGenerator}
+				case 4: // identity only
+					pre.Meta.Capabilities = []pf.Capability{pf.CapabilityTrustedIdentityVerifier}
+				case 5: // revocation only, and it says revoked
+					pre.Meta.Capabilities = []pf.Capability{pf.CapabilityRevocationCheckVerifier}
+					pre.Verdicts[pf.CapabilityRevocationCheckVerifier] = &pf.VerificationResult{Success: false, Reason: "revoked at the time"}
+				}
+				installed, had := sm.Plugins[c02Plugin]
+				sm.Plugins[c02Plugin] = pre
+				v.Verify(ctx, desc, sig, notation.VerifierVerifyOptions{ArtifactReference: "registry.example/repo@" + desc.Digest.String(), SignatureMediaType: so.MediaType})
+				if had {
+					sm.Plugins[c02Plugin] = installed
+				} else {
+					delete(sm.Plugins, c02Plugin)
+				}
+				val.Calls, val.Legacy = nil, 0
+				rt.Sleep(3 * time.Minute)
+				res.Probe("verified_before_with_another_plugin_build_installed")
 			}
 			outcome, verr := v.Verify(ctx, desc, sig, notation.VerifierVerifyOptions{ArtifactReference: "registry.example/repo@" + desc.Digest.String(), SignatureMediaType: so.MediaType})
 			accepted[levelName] = verr == nil
